@@ -134,9 +134,46 @@ def chrom_column(names, values, how):
     return values, pd.CategoricalDtype(cats)
 
 
+def fits(vals, dt):
+    info = np.iinfo(dt)
+    return all(info.min <= int(v) <= info.max for v in vals)
+
+
+def bins_variant(bins, how, tmpdir="/tmp"):
+    """the bin table handed to the code under test: start/end columns as int64 (default) / int32 / uint32, or the frame that
+    Cooler.bins()[:] returns for a cooler created from it (categorical chrom, 32-bit coordinates)"""
+    if how in (None, "int64"):
+        return bins
+    cache = bins.attrs.setdefault("_variants", {})
+    if how in cache:
+        return cache[how]
+    if how in ("int32", "uint32"):
+        dt = POS_DTYPES[how]
+        v = bins.copy()
+        if fits(list(bins["start"]) + list(bins["end"]), dt):
+            v["start"] = v["start"].astype(dt)
+            v["end"] = v["end"].astype(dt)
+    else:   # "cooler"
+        import cooler
+        import tempfile
+        v = bins
+        if fits(list(bins["end"]), np.int32):
+            d = tempfile.mkdtemp(prefix="binsrt_", dir=str(tmpdir))
+            uri = os.path.join(d, "b.cool")
+            cooler.create_cooler(uri, bins[["chrom", "start", "end"]], {"bin1_id": np.array([0]), "bin2_id": np.array([0]), "count": np.array([1])})
+            v = cooler.Cooler(uri).bins()[:]
+            import shutil
+            shutil.rmtree(d, ignore_errors=True)
+    v.attrs = {}
+    cache[how] = v
+    return v
+
+
 def rec_df(names, anchor, xname, chunk, decode=True, with_x=True, with_count=None, chrom_repr="object", pos_dtype="int64", suf=("1", "2")):
     nm = (lambda c: name_of(names, c)) if decode else (lambda c: c)
     pdt = POS_DTYPES[pos_dtype or "int64"]
+    if not fits([r[1] for r in chunk] + [r[4] for r in chunk], pdt):
+        pdt = np.int64                                   # a coordinate that the narrow type cannot hold is handed over as int64
     c1 = [nm(r[0]) for r in chunk]
     c2 = [nm(r[3]) for r in chunk]
     d = {"chrom1": c1, anchor + suf[0]: np.array([r[1] for r in chunk], dtype=pdt)}
@@ -202,7 +239,7 @@ def run_sanitize(bins, names, case):
         kw.update(chrom_field="chrom", anchor_field="p", suffixes=suf, sided_fields=())
     res = []
     try:
-        f = sanitize_records(bins, schema=schema, **kw)
+        f = sanitize_records(bins_variant(bins, o.get("bins_dtype"), case.get("_tmpdir", "/tmp")), schema=schema, **kw)
     except Exception as e:  # noqa: BLE001
         return ["ctor:" + classify(e)]
     for chunk in case["chunks"]:
@@ -246,7 +283,7 @@ def run_pixels(bins, case):
     f1, f2 = o.get("fields") or ("bin1_id", "bin2_id")
     if o.get("fields"):
         kw.update(bin1_field=f1, bin2_field=f2)
-    f = sanitize_pixels(bins, **kw)
+    f = sanitize_pixels(bins_variant(bins, o.get("bins_dtype"), case.get("_tmpdir", "/tmp")), **kw)
     bdt = POS_DTYPES[o.get("pos_dtype") or "int64"]
     vdt = np.float64 if o.get("val_dtype") == "float" else np.int64
     res = []
@@ -375,6 +412,7 @@ def run_cli(tmpdir, k, blocks, names, case):
 
 
 def run_case(tmpdir, tag, bins, blocks, names, case):
+    case = dict(case, _tmpdir=tmpdir)
     try:
         if case["fn"] == "sanitize_records":
             return run_sanitize(bins, names, case)
@@ -862,6 +900,70 @@ def gen_unlisted_runs(rng, widths, fns):
     return cases
 
 
+def big_genome_tables(rng, n):
+    """LARGE genomes with FEW bins: cumulative length just below / at / above 2^31 and 2^32, chromosome lengths near 2^31-1,
+    variable-size and fixed-size bins (numeric edge: 32-bit narrowing of genome-wide offsets)"""
+    M31, M32 = 2 ** 31, 2 ** 32
+    out = []
+
+    def split(L, k, fixed):
+        if fixed:
+            b = -(-L // k)
+            ws = [b] * (L // b) + ([L % b] if L % b else [])
+            return ws
+        cuts = sorted(rng.sample(range(1, min(L, 10 ** 9)), k - 1)) if k > 1 else []
+        cuts = sorted({c * (L // min(L, 10 ** 9)) or 1 for c in cuts} - {0, L})
+        return [b_ - a_ for a_, b_ in zip([0] + cuts, cuts + [L])]
+
+    targets = [M31 - 1, M31, M31 + 1, M31 + 10 ** 6, M32 - 1, M32, M32 + 1, M32 + 10 ** 9, 3 * M31 - 3]
+    for i in range(n):
+        total = targets[i % len(targets)]
+        fixed = i % 3 == 2
+        nc = rng.choice([2, 3, 4]) if total <= 3 * (M31 - 1) else 4
+        nc = max(nc, -(-total // (M31 - 1)))
+        # chromosome lengths: as many as possible at the int32 maximum, the rest shares what is left
+        lens = []
+        left = total
+        for c in range(nc):
+            rest = nc - c - 1
+            hi = min(M31 - 1, left - rest * 1000)
+            lo = max(1000, left - rest * (M31 - 1))
+            L = hi if rng.random() < 0.35 else rng.randint(lo, hi)
+            lens.append(L)
+            left -= L
+        if left:
+            lens[-1] += left
+        rng.shuffle(lens)
+        if fixed:
+            b = rng.choice([2 ** 30, 10 ** 9, 2 ** 29, max(lens) // 2 + 1])
+            widths = [[b] * (L // b) + ([L % b] if L % b else []) for L in lens]
+            if not any(len(w) > 1 for w in widths):
+                widths = [[L // 2, L - L // 2] if L > 1 else [L] for L in lens]
+        else:
+            widths = [split(L, rng.choice([1, 2, 3, 4]) if L > 4 else 1, False) for L in lens]
+        assert [sum(w) for w in widths] == lens and all(x > 0 for w in widths for x in w), (widths, lens)
+        out.append(widths)
+    return out
+
+
+BINS_DTYPES = ["int32", "cooler", "int64", "uint32", "int32", "cooler"]
+
+
+def big_genome_cases(rng, widths, thorough):
+    """boundary sweep + random record sets + pixels + text loaders on a large genome, the bin table handed over in every coordinate dtype"""
+    cases = gen_exhaustive_edges(widths)
+    cases += gen_record_cases(rng, widths, 20 if thorough else 8, not thorough)
+    cases += gen_pixel_cases(rng, widths, 2)
+    for i, c in enumerate(cases):
+        c["opts"]["bins_dtype"] = BINS_DTYPES[i % len(BINS_DTYPES)]
+        c["label"] = "big:" + c["label"]
+    cli = [c for c in gen_cli_cases(rng, widths, 6 if thorough else 3) if c["fn"] != "cload_tabix"]      # .tbi indexes stop at 2^29
+    cli += [c for c in gen_unlisted_runs(rng, widths, ["cload_pairs", "load_bg2"])]
+    for c in cli:
+        c["label"] = c["label"].replace("cli:", "cli:big:")
+    return cases + cli
+
+
 LOADERS = ["cload_tabix", "cload_pairs", "load_bg2", "sanitize_records"]      # `cload pairix` needs pypairix, which is not installed
 
 CORPUS = [
@@ -1138,6 +1240,8 @@ def run(ctx):
         elif rng.random() < 0.5:
             cases += gen_unlisted_runs(rng, widths, [rng.choice(LOADERS)])
         per_table.setdefault(canon_w(widths), [widths, []])[1].extend(cases)
+    for widths in big_genome_tables(rng, 27 if thorough else 9):
+        per_table.setdefault(canon_w(widths), [widths, []])[1].extend(big_genome_cases(rng, widths, thorough))
     for case in D2_CASES + D27_CASES + REPR_CASES + AUDIT_CASES + CLI_CORPUS:
         per_table.setdefault(canon_w(case["widths"]), [case["widths"], []])[1].append(case)
     plan = list(per_table.values())
